@@ -7,6 +7,7 @@ import (
 	"net"
 	"os"
 	"path/filepath"
+	"sync"
 	"testing"
 	"time"
 
@@ -159,13 +160,16 @@ func serveOver(transport string, srv *vgirpc.Server, input []byte) (lib.PipeResu
 		srvConn.Close()
 	}()
 	var out bytes.Buffer
+	var outMu sync.Mutex
 	rdDone := make(chan struct{})
 	go func() {
 		defer close(rdDone)
 		buf := make([]byte, 64<<10)
 		for {
 			n, err := cliConn.Read(buf)
+			outMu.Lock()
 			out.Write(buf[:n])
+			outMu.Unlock()
 			if err != nil {
 				return
 			}
@@ -185,7 +189,10 @@ func serveOver(transport string, srv *vgirpc.Server, input []byte) (lib.PipeResu
 		deadline := time.Now().Add(20 * time.Second)
 		for time.Now().Before(deadline) {
 			time.Sleep(2 * time.Millisecond)
-			if bytes.Contains(out.Bytes(), []byte("sentinel-rid")) {
+			outMu.Lock()
+			seen := bytes.Contains(out.Bytes(), []byte("sentinel-value"))
+			outMu.Unlock()
+			if seen {
 				time.Sleep(10 * time.Millisecond)
 				break
 			}
